@@ -94,6 +94,8 @@ def build_pools(rng, shard, nshards, exes, want_forms):
 # running scripts
 # ----------------------------------------------------------------------------------------------------------------------
 def san_key(rep, rc):
+    if rc == 71 and not rep:
+        return "hang:cpu-limit"
     if rep:
         top = next((fr for fr in rep["frames"] if "asmjit" in fr), rep["frames"][0] if rep["frames"] else "?").split("(")[0][:80]
         return "sanitizer:%s:%s" % (rep["kind"].split(" on ")[0].split(" 0x")[0][:60], top)
@@ -105,10 +107,12 @@ def run_scripts(exe, items, env=None):
     recs = {}
     crashes = []
     todo = list(items)
+    hangs = 0
     for _ in range(8):
-        if not todo:
+        if not todo or hangs >= 3:
             break
-        rc, out, err = _run_file([exe], "".join(t for _, t in todo), "--scripts", env=env)
+        rc, out, err = _run_file([exe, "--cpu-limit", "10"], "".join(t for _, t in todo), "--scripts", env=env)
+        hangs += 1 if rc == 71 else 0
         for l in out.decode("utf-8", "replace").splitlines():
             try:
                 r = json.loads(l)
@@ -124,7 +128,8 @@ def run_scripts(exe, items, env=None):
                 last = l.split()[1]
         if last is None:
             raise common.HarnessError("driver failed before the first script: rc=%s %s" % (rc, err[-400:]))
-        crashes.append((san_key(rep, rc), "%s while replaying script %s: %s" % ("sanitizer report" if rep else "crash", last, rep or ("exit code %d" % rc)), last))
+        what = "sanitizer report" if rep else "10 s of CPU time used up (a script needs milliseconds): the library does not terminate" if rc == 71 else "crash"
+        crashes.append((san_key(rep, rc), "%s while replaying script %s: %s" % (what, last, rep or ("exit code %d" % rc)), last))
         idx = next(i for i, (s, _) in enumerate(todo) if s["sid"] == last)
         todo = todo[idx + 1:]
     return recs, crashes
@@ -315,7 +320,7 @@ def worker(arg):
         else:
             shrunk += 1
             budget = 120 if shrunk <= 4 else 40 if shrunk <= 12 else 0
-        small = minimize(exes["equiv"], s, key, budget=budget)
+        small = minimize(exes["equiv"], s, key, budget=min(budget, 10) if key.startswith("hang") else budget)
         try:
             text = SG.render(small, small.get("allow_empty", False))
         except SG.Invalid:
